@@ -332,7 +332,7 @@ def run_check(mod, tier, seed):
         "engine": _engine_versions(),
     }
     if getattr(mod, "EXHAUSTIVE", None):
-        coverage["exhaustive"] = bool(extra.get("exhaustive_complete"))
+        coverage["exhaustive"] = extra.get("exhaustive_complete") == nshards
         coverage["exhaustive_domain"] = mod.EXHAUSTIVE
     coverage.update({k: v for k, v in extra.items() if k not in coverage})
     evidence = {
